@@ -27,7 +27,8 @@ Inductive arr := A1 (v : vec) | A2 (m : mat) | A3 (t : list mat).
 (* what a metric returns: a scalar (axis=None, or axis=0 of a 1-D array) or one value per feature *)
 Inductive res := RS (x : F) | RV (v : vec).
 
-(* np.asarray(..).shape of a rectangular nested list *)
+(* np.asarray(..).shape of a rectangular nested list.  A list / tuple of equally shaped 2-D ndarrays is stacked by np.asarray into
+   the 3-D array [A3]; integer and boolean arrays are cast to float64 first, i.e. they denote the same numbers. *)
 Definition shape (a : arr) : list nat :=
   match a with
   | A1 v => [length v]
